@@ -1,8 +1,8 @@
 /-
   Lemmas for C13, part 2: what `extract` copies.
   * the focus loop copies the focused cells, the focused names and the cells they are bound to;
-  * the worklist keeps the invariant "every term of a copied formula cell and every member of a copied
-    range is copied or still on the list", never changes what is copied, and terminates within `workFuel`.
+  * the `if` / `elif` branches of the loop body (`baseStep`) copy a range / a cell of the model or nothing;
+  * `pending`: the weight of what may still be pushed (for the termination measure).
 -/
 import XlVerif.Lemmas.C13Read
 namespace XlVerif.Lemmas.C13
@@ -168,26 +168,34 @@ theorem copyCell_ok {m x x' : XModel} {a : Addr} (h : copyCell m x a = .ok x') (
     subst h
     exact ⟨grow_setCell hs hc, by simp, ⟨c, rfl⟩, rfl, rfl⟩
 
-theorem copyCells_ok {m : XModel} : ∀ (l : List Addr) (x x' : XModel), copyCells m x l = .ok x' → Sub x m →
-    Grow m x x' ∧ (∀ b ∈ l, ∃ c, m.st.cell? b = some c ∧ x'.st.cell? b = some c)
-      ∧ x'.st.ranges = x.st.ranges ∧ x'.formulae = x.formulae
-  | [], x, x', h, hs => by
-    simp only [copyCells, Except.ok.injEq] at h
-    subst h
-    exact ⟨Grow.refl hs, fun _ hb => (by cases hb), rfl, rfl⟩
-  | a :: rest, x, x', h, hs => by
-    simp only [copyCells] at h
-    cases h1 : copyCell m x a with
-    | error e => rw [h1] at h; cases h
-    | ok x1 =>
-      rw [h1] at h
-      obtain ⟨g1, hc1, ⟨c, hc⟩, hr1, hf1⟩ := copyCell_ok h1 hs
-      obtain ⟨g2, hall, hr2, hf2⟩ := copyCells_ok rest x1 x' h g1.sub
-      refine ⟨g1.trans g2, ?_, hr2.trans hr1, hf2.trans hf1⟩
-      intro b hb
+theorem copyCellsOpt_ok {m : XModel} : ∀ (l : List Addr) (x : XModel), Sub x m →
+    Grow m x (copyCellsOpt m x l) ∧ (∀ b ∈ l, ∀ c, m.st.cell? b = some c → (copyCellsOpt m x l).st.cell? b = some c)
+      ∧ (copyCellsOpt m x l).st.ranges = x.st.ranges ∧ (copyCellsOpt m x l).formulae = x.formulae
+  | [], x, hs => ⟨Grow.refl hs, fun _ hb => (by cases hb), rfl, rfl⟩
+  | a :: rest, x, hs => by
+    simp only [copyCellsOpt]
+    cases hc : m.st.cell? a with
+    | none =>
+      simp only
+      obtain ⟨g, hall, hr, hf⟩ := copyCellsOpt_ok rest x hs
+      refine ⟨g, ?_, hr, hf⟩
+      intro b hb c hbc
       cases hb with
-      | head => exact ⟨c, hc, g2.le.cell a c (by rw [hc1, hc])⟩
-      | tail _ hb' => exact hall b hb'
+      | head => rw [hc] at hbc; cases hbc
+      | tail _ hb' => exact hall b hb' c hbc
+    | some c0 =>
+      simp only
+      have g1 := grow_setCell hs hc
+      obtain ⟨g2, hall, hr, hf⟩ := copyCellsOpt_ok rest (x.setCell a c0) g1.sub
+      refine ⟨g1.trans g2, ?_, hr, hf⟩
+      intro b hb c hbc
+      cases hb with
+      | head =>
+        rw [hc] at hbc
+        simp only [Option.some.injEq] at hbc
+        subst hbc
+        exact g2.le.cell a c0 (by simp)
+      | tail _ hb' => exact hall b hb' c hbc
 
 /-- what the loop body has achieved for the focused address `a` -/
 structure FocusDone (m x : XModel) (a : Addr) : Prop where
@@ -195,7 +203,7 @@ structure FocusDone (m x : XModel) (a : Addr) : Prop where
   name : m.st.cell? a = none → ∀ t, assoc a m.st.names = some t →
     assoc a x.st.names = some t ∧ ∃ c, m.st.cell? t = some c ∧ x.st.cell? t = some c
   rname : m.st.cell? a = none → assoc a m.st.names = none → ∀ rn, assoc a m.rnames = some rn →
-    assoc a x.rnames = some rn ∧ ∀ b ∈ rn.cells.flatten, ∃ c, m.st.cell? b = some c ∧ x.st.cell? b = some c
+    assoc a x.rnames = some rn ∧ ∀ b ∈ rn.cells.flatten, ∀ c, m.st.cell? b = some c → x.st.cell? b = some c
 
 theorem FocusDone.mono {m x x' : XModel} {a : Addr} (h : FocusDone m x a) (hle : Le x x') : FocusDone m x' a where
   cell := fun c hc => hle.cell a c (h.cell c hc)
@@ -204,9 +212,7 @@ theorem FocusDone.mono {m x x' : XModel} {a : Addr} (h : FocusDone m x a) (hle :
     exact ⟨hle.name a t h1, c, hc, hle.cell t c hx⟩
   rname := fun h0 h1 rn hrn => by
     obtain ⟨h2, hall⟩ := h.rname h0 h1 rn hrn
-    refine ⟨hle.rname a rn h2, fun b hb => ?_⟩
-    obtain ⟨c, hc, hx⟩ := hall b hb
-    exact ⟨c, hc, hle.cell b c hx⟩
+    exact ⟨hle.rname a rn h2, fun b hb c hc => hle.cell b c (hall b hb c hc)⟩
 
 theorem focusStep_ok {m x x' : XModel} {a : Addr} (h : focusStep m x a = .ok x') (hs : Sub x m) :
     Grow m x x' ∧ FocusDone m x' a ∧ x'.st.ranges = x.st.ranges ∧ x'.formulae = x.formulae := by
@@ -243,9 +249,10 @@ theorem focusStep_ok {m x x' : XModel} {a : Addr} (h : focusStep m x a = .ok x')
       cases hrn : assoc a m.rnames with
       | some rn =>
         rw [hrn] at h
-        simp only at h
+        simp only [Except.ok.injEq] at h
+        subst h
         have g0 := grow_setRName (x := x) hs hrn
-        obtain ⟨g1, hall, hr1, hf1⟩ := copyCells_ok _ _ _ h g0.sub
+        obtain ⟨g1, hall, hr1, hf1⟩ := copyCellsOpt_ok rn.cells.flatten _ g0.sub
         refine ⟨g0.trans g1, ⟨fun c' hc' => ?_, fun _ t ht => ?_, ?_⟩, hr1, hf1⟩
         · rw [hc] at hc'; cases hc'
         · rw [hn] at ht; cases ht
@@ -293,20 +300,15 @@ def Handled (m x : XModel) (t : Addr) : Prop :=
 theorem Handled.mono {m x x' : XModel} {t : Addr} (h : Handled m x t) (hle : Le x x') : Handled m x' t :=
   ⟨fun r hr => hle.range t r (h.1 r hr), fun c hc => hle.cell t c (h.2 c hc)⟩
 
-structure Inv (m x : XModel) (todo : List Addr) : Prop where
-  sub : Sub x m
-  cell : ∀ a c, x.st.cell? a = some c → ∀ t ∈ cellTerms c, Handled m x t ∨ t ∈ todo
-  range : ∀ k r, x.st.range? k = some r → ∀ y ∈ r.cells.flatten, Handled m x y ∨ y ∈ todo
-
-/-- the three outcomes of one iteration -/
-theorem step_cases (m x : XModel) (t : Addr) :
+/-- the three outcomes of the `if` / `elif` branches -/
+theorem baseStep_cases (m x : XModel) (t : Addr) :
     (∃ r, m.st.range? t = some r ∧ x.st.range? t = none
-        ∧ step m x t = (x.setRange t r, r.cells.flatten.reverse))
+        ∧ baseStep m x t = (x.setRange t r, r.cells.flatten.reverse))
     ∨ (∃ c, m.st.cell? t = some c ∧ x.st.cell? t = none
         ∧ (∀ r, m.st.range? t = some r → x.st.range? t ≠ none)
-        ∧ step m x t = (x.setCell t c, (cellTerms c).reverse))
+        ∧ baseStep m x t = (x.setCell t c, (cellTerms c).reverse))
     ∨ ((∀ r, m.st.range? t = some r → x.st.range? t ≠ none)
-        ∧ (∀ c, m.st.cell? t = some c → x.st.cell? t ≠ none) ∧ step m x t = (x, [])) := by
+        ∧ (∀ c, m.st.cell? t = some c → x.st.cell? t ≠ none) ∧ baseStep m x t = (x, [])) := by
   have hcs : (∃ c, m.st.cell? t = some c ∧ x.st.cell? t = none
         ∧ cellStep m x t = (x.setCell t c, (cellTerms c).reverse))
       ∨ ((∀ c, m.st.cell? t = some c → x.st.cell? t ≠ none) ∧ cellStep m x t = (x, [])) := by
@@ -321,7 +323,7 @@ theorem step_cases (m x : XModel) (t : Addr) :
         simp [MState.cell?, hv]
       | false =>
         exact Or.inl ⟨c, rfl, hasKey_false.mp hk, by simp⟩
-  unfold step
+  unfold baseStep
   cases hr : m.st.range? t with
   | none =>
     simp only
@@ -342,16 +344,16 @@ theorem step_cases (m x : XModel) (t : Addr) :
       · exact Or.inr (Or.inl ⟨c, h1, h2, hne, h3⟩)
       · exact Or.inr (Or.inr ⟨hne, h1, h2⟩)
 
-theorem step_grow {m x : XModel} (hs : Sub x m) (t : Addr) : Grow m x (step m x t).1 := by
-  rcases step_cases m x t with ⟨r, h1, _, h3⟩ | ⟨c, h1, _, _, h4⟩ | ⟨_, _, h3⟩
+theorem baseStep_grow {m x : XModel} (hs : Sub x m) (t : Addr) : Grow m x (baseStep m x t).1 := by
+  rcases baseStep_cases m x t with ⟨r, h1, _, h3⟩ | ⟨c, h1, _, _, h4⟩ | ⟨_, _, h3⟩
   · rw [h3]; exact grow_setRange hs h1
   · rw [h4]; exact grow_setCell hs h1
   · rw [h3]; exact Grow.refl hs
 
-theorem step_names (m x : XModel) (t : Addr) :
-    (step m x t).1.st.names = x.st.names ∧ (step m x t).1.rnames = x.rnames
-      ∧ (step m x t).1.formulae = x.formulae := by
-  rcases step_cases m x t with ⟨r, _, _, h3⟩ | ⟨c, _, _, _, h4⟩ | ⟨_, _, h3⟩
+theorem baseStep_names (m x : XModel) (t : Addr) :
+    (baseStep m x t).1.st.names = x.st.names ∧ (baseStep m x t).1.rnames = x.rnames
+      ∧ (baseStep m x t).1.formulae = x.formulae := by
+  rcases baseStep_cases m x t with ⟨r, _, _, h3⟩ | ⟨c, _, _, _, h4⟩ | ⟨_, _, h3⟩
   · refine ⟨?_, ?_, ?_⟩ <;> rw [h3] <;> rfl
   · refine ⟨?_, ?_, ?_⟩ <;> rw [h4] <;> rfl
   · refine ⟨?_, ?_, ?_⟩ <;> rw [h3]
@@ -359,87 +361,7 @@ theorem step_names (m x : XModel) (t : Addr) :
 /-- hygiene: a range key is not a cell address -/
 def RangeNotCell (m : XModel) : Prop := ∀ k r, m.st.range? k = some r → m.st.cell? k = none
 
-theorem step_inv {m x : XModel} (hrc : RangeNotCell m) {t : Addr} {rest : List Addr}
-    (h : Inv m x (t :: rest)) : Inv m (step m x t).1 ((step m x t).2 ++ rest) := by
-  have hg := step_grow h.sub t
-  rcases step_cases m x t with ⟨r, h1, h2, h3⟩ | ⟨c, h1, h2, hnr, h4⟩ | ⟨hnr, hnc, h3⟩
-  · -- a range is copied
-    rw [h3] at hg ⊢
-    have ht : Handled m (x.setRange t r) t :=
-      ⟨fun r' hr' => by simp [← hr', h1], fun c hc => by rw [hrc t r h1] at hc; cases hc⟩
-    have old : ∀ y, Handled m x y ∨ y ∈ t :: rest →
-        Handled m (x.setRange t r) y ∨ y ∈ r.cells.flatten.reverse ++ rest := by
-      intro y hy
-      rcases hy with hy | hy
-      · exact Or.inl (hy.mono hg.le)
-      · cases hy with
-        | head => exact Or.inl ht
-        | tail _ hy' => exact Or.inr (List.mem_append_right _ hy')
-    refine ⟨hg.sub, fun a c hc u hu => old u (h.cell a c hc u hu), fun k r' hk y hy => ?_⟩
-    simp only [range?_setRange] at hk
-    by_cases hkt : k = t
-    · simp only [hkt, if_true, Option.some.injEq] at hk
-      subst hk
-      exact Or.inr (List.mem_append_left _ (List.mem_reverse.mpr hy))
-    · simp only [hkt, if_false] at hk
-      exact old y (h.range k r' hk y hy)
-  · -- a cell is copied
-    rw [h4] at hg ⊢
-    have ht : Handled m (x.setCell t c) t := by
-      refine ⟨fun r hr => ?_, fun c' hc' => by simp [← hc', h1]⟩
-      cases hx : x.st.range? t with
-      | none => exact absurd hx (hnr r hr)
-      | some r' => simp only [range?_setCell]; rw [hx, ← hr, h.sub.range t r' hx]
-    have old : ∀ y, Handled m x y ∨ y ∈ t :: rest →
-        Handled m (x.setCell t c) y ∨ y ∈ (cellTerms c).reverse ++ rest := by
-      intro y hy
-      rcases hy with hy | hy
-      · exact Or.inl (hy.mono hg.le)
-      · cases hy with
-        | head => exact Or.inl ht
-        | tail _ hy' => exact Or.inr (List.mem_append_right _ hy')
-    refine ⟨hg.sub, fun a c' hc u hu => ?_, fun k r hk y hy => old y (h.range k r hk y hy)⟩
-    simp only [cell?_setCell] at hc
-    by_cases hat : a = t
-    · simp only [hat, if_true, Option.some.injEq] at hc
-      subst hc
-      exact Or.inr (List.mem_append_left _ (List.mem_reverse.mpr hu))
-    · simp only [hat, if_false] at hc
-      exact old u (h.cell a c' hc u hu)
-  · -- nothing to copy
-    rw [h3]
-    have ht : Handled m x t := by
-      refine ⟨fun r hr => ?_, fun c hc => ?_⟩
-      · cases hx : x.st.range? t with
-        | none => exact absurd hx (hnr r hr)
-        | some r' => rw [← hr, h.sub.range t r' hx]
-      · cases hx : x.st.cell? t with
-        | none => exact absurd hx (hnc c hc)
-        | some c' => rw [← hc, h.sub.cell t c' hx]
-    have old : ∀ y, Handled m x y ∨ y ∈ t :: rest → Handled m x y ∨ y ∈ [] ++ rest := by
-      intro y hy
-      rcases hy with hy | hy
-      · exact Or.inl hy
-      · cases hy with
-        | head => exact Or.inl ht
-        | tail _ hy' => exact Or.inr hy'
-    exact ⟨h.sub, fun a c hc u hu => old u (h.cell a c hc u hu),
-      fun k r hk y hy => old y (h.range k r hk y hy)⟩
-
-theorem worklist_inv {m : XModel} (hrc : RangeNotCell m) : ∀ (n : Nat) (x : XModel) (todo : List Addr),
-    Inv m x todo →
-      Inv m (worklist m n x todo).1 (worklist m n x todo).2 ∧ Le x (worklist m n x todo).1
-        ∧ (worklist m n x todo).1.st.names = x.st.names ∧ (worklist m n x todo).1.rnames = x.rnames
-        ∧ (worklist m n x todo).1.formulae = x.formulae
-  | 0, x, todo, h => ⟨h, Le.refl x, rfl, rfl, rfl⟩
-  | n + 1, x, [], h => ⟨h, Le.refl x, rfl, rfl, rfl⟩
-  | n + 1, x, t :: rest, h => by
-    simp only [worklist]
-    obtain ⟨i, l, n1, n2, n3⟩ := worklist_inv hrc n (step m x t).1 ((step m x t).2 ++ rest) (step_inv hrc h)
-    obtain ⟨s1, s2, s3⟩ := step_names m x t
-    exact ⟨i, (step_grow h.sub t).le.trans l, n1.trans s1, n2.trans s2, n3.trans s3⟩
-
-/-! ### termination of the worklist -/
+/-! ### weights for the termination measure -/
 
 /-- the weight of the entries of `l` whose key is not yet a key of `xs` -/
 def pending {β γ} (w : β → Nat) (l : List (Addr × β)) (xs : List (Addr × γ)) : Nat :=
@@ -486,46 +408,63 @@ theorem pending_assocSet {β γ} (w : β → Nat) (l : List (Addr × β)) (xs : 
       simp only [pending, List.map_cons, sumNat, hasKey_assocSet, hk', decide_false, Bool.false_or] at ih' ⊢
       omega
 
-/-- the loop measure: length of the list + the terms / members that may still be pushed -/
-def mu (m x : XModel) (todo : List Addr) : Nat :=
-  todo.length + pending (fun c => (cellTerms c).length) m.st.cells x.st.cells
-    + pending (fun (r : Range) => r.cells.flatten.length) m.st.ranges x.st.ranges
+/-! ### hygiene of compiled workbooks -/
 
-theorem mu_le_workFuel (m x : XModel) (todo : List Addr) : mu m x todo ≤ workFuel m todo := by
-  have h1 := pending_le_total (fun c => (cellTerms c).length) m.st.cells x.st.cells
-  have h2 := pending_le_total (fun (r : Range) => r.cells.flatten.length) m.st.ranges x.st.ranges
-  simp only [mu, workFuel]
-  omega
+structure WF (m : XModel) : Prop where
+  /-- a range key is not a cell address -/
+  rangeNotCell : RangeNotCell m
+  /-- a defined name is neither a cell address nor a range key -/
+  nameNotCell : ∀ n, m.isName n = true → m.st.cell? n = none ∧ m.st.range? n = none
+  /-- a name is bound to a cell address, not to another name -/
+  targetNotName : ∀ n t, assoc n m.st.names = some t → m.isName t = false
+  /-- the members of a named range are cell addresses: neither names nor range keys -/
+  memberNotName : ∀ n rn, assoc n m.rnames = some rn → ∀ b ∈ rn.cells.flatten, m.isName b = false
+  memberNotRange : ∀ n rn, assoc n m.rnames = some rn → ∀ b ∈ rn.cells.flatten, m.st.range? b = none
+  /-- a named range is registered in `ranges` under its key (`build_defined_names` does both) -/
+  registered : ∀ n rn, assoc n m.rnames = some rn → m.st.range? rn.key ≠ none
+  /-- the members of a range are cell addresses, not defined names -/
+  rangeMemberNotName : ∀ k r, m.st.range? k = some r → ∀ y ∈ r.cells.flatten, m.isName y = false
 
-theorem step_mu (m x : XModel) (t : Addr) (rest : List Addr) :
-    mu m (step m x t).1 ((step m x t).2 ++ rest) + 1 ≤ mu m x (t :: rest) := by
-  rcases step_cases m x t with ⟨r, h1, h2, h3⟩ | ⟨c, h1, h2, _, h4⟩ | ⟨_, _, h3⟩
-  · rw [h3]
-    have := pending_assocSet (fun (r : Range) => r.cells.flatten.length) m.st.ranges x.st.ranges t r r h1
-      (hasKey_false.mpr h2)
-    simp only [mu, XModel.setRange, List.length_append, List.length_reverse, List.length_cons] at this ⊢
-    omega
-  · rw [h4]
-    have := pending_assocSet (fun c => (cellTerms c).length) m.st.cells x.st.cells t c c h1
-      (hasKey_false.mpr h2)
-    simp only [mu, XModel.setCell, List.length_append, List.length_reverse, List.length_cons] at this ⊢
-    omega
-  · rw [h3]
-    simp only [mu, List.nil_append, List.length_cons]
-    omega
+theorem assoc_mem {β} {k : Addr} {v : β} : ∀ {l : List (Addr × β)}, assoc k l = some v → (k, v) ∈ l
+  | [], h => by simp [assoc] at h
+  | (k', v') :: rest, h => by
+    by_cases hk : k = k'
+    · simp only [assoc, hk, if_true, Option.some.injEq] at h
+      subst h; subst hk; exact List.mem_cons_self
+    · simp only [assoc, hk, if_false] at h
+      exact List.mem_cons_of_mem _ (assoc_mem h)
 
-/-- with `n ≥ mu` iterations the list is empty at the end -/
-theorem worklist_finishes (m : XModel) : ∀ (n : Nat) (x : XModel) (todo : List Addr),
-    mu m x todo ≤ n → (worklist m n x todo).2 = []
-  | 0, x, todo, h => by
-    simp only [worklist]
-    have : todo.length = 0 := by simp only [mu] at h; omega
-    exact List.eq_nil_of_length_eq_zero this
-  | n + 1, x, [], _ => by simp [worklist]
-  | n + 1, x, t :: rest, h => by
-    simp only [worklist]
-    apply worklist_finishes m n
-    have := step_mu m x t rest
-    omega
+theorem wf_of_wfb {m : XModel} (h : wfb m = true) : WF m := by
+  simp only [wfb, Bool.and_eq_true, List.all_eq_true, Bool.not_eq_true'] at h
+  obtain ⟨⟨h1, h2⟩, h3⟩ := h
+  refine ⟨?_, ?_, ?_, ?_, ?_, ?_, ?_⟩
+  · intro k r hr
+    exact hasKey_false.mp (h1 (k, r) (assoc_mem hr)).1
+  · intro n hn
+    simp only [XModel.isName, Bool.or_eq_true] at hn
+    rcases hn with hn | hn
+    · obtain ⟨t, ht⟩ := hasKey_true.mp hn
+      have := h2 (n, t) (assoc_mem ht)
+      exact ⟨hasKey_false.mp this.1.1, hasKey_false.mp this.1.2⟩
+    · obtain ⟨rn, hrn⟩ := hasKey_true.mp hn
+      have := h3 (n, rn) (assoc_mem hrn)
+      exact ⟨hasKey_false.mp this.1.1.1, hasKey_false.mp this.1.1.2⟩
+  · intro n t ht
+    exact (h2 (n, t) (assoc_mem ht)).2
+  · intro n rn hrn b hb
+    exact ((h3 (n, rn) (assoc_mem hrn)).2 b hb).1
+  · intro n rn hrn b hb
+    exact hasKey_false.mp ((h3 (n, rn) (assoc_mem hrn)).2 b hb).2
+  · intro n rn hrn
+    obtain ⟨v, hv⟩ := hasKey_true.mp (h3 (n, rn) (assoc_mem hrn)).1.2
+    simp [MState.range?, hv]
+  · intro k r hr y hy
+    exact (h1 (k, r) (assoc_mem hr)).2 y hy
+
+theorem key_not_name {m : XModel} (hwf : WF m) {n : Addr} {rn : RName}
+    (h : assoc n m.rnames = some rn) : m.isName rn.key = false := by
+  cases hk : m.isName rn.key with
+  | false => rfl
+  | true => exact absurd (hwf.nameNotCell _ hk).2 (hwf.registered n rn h)
 
 end XlVerif.Lemmas.C13
